@@ -17,9 +17,10 @@ typedef struct { int a; int b; } ST; ST st, st2; typedef struct { int a; bool b;
 int ar[2], ar2[2]; int ar3[3]; chan c, c2; broadcast chan bc; int f1(int q) { return q; } double fd() { return 1.0; }
 typedef S1 S1a; S1a s1a; typedef S1a S1aa; S1aa s1aa; typedef ST STa; STa sta; typedef int[0,3] R3; typedef R3 R3a; R3a j2;
 typedef int A2[2]; typedef A2 A2a; A2a ara; typedef clock CK; typedef CK CKa; CKa xa; meta int mi;
+const int N4 = 4; int[0,N4] jn; int[0,4] j4; int[0,2+2] jp; int an[N4]; int a4[4]; int ap[2+2]; int[0,N4] arn[2]; int[0,4] ar4[2];
 """
 POOL_Q = ["i", "j", "ci", "bb", "d", "x", "x - y", "s1", "s2", "st", "ar", "c", '"abc"', "i + 1", "d * 2.0", "1", "1.5",
-          "s1a", "s1aa", "sta", "j2", "ara", "xa", "mi"]
+          "s1a", "s1aa", "sta", "j2", "ara", "xa", "mi", "jn", "j4", "an", "a4", "ap", "arn", "ar4"]
 POOL_T = POOL_Q + ["s1b", "st2", "su", "ar2", "ar3", "bc", "true", "f1(i)", "fd()", "st.a", "ar[0]", "x + 1", "-i", "!bb",
                    "i < j", "x < 5", "x - y < 3", "bb && x < 5"]
 OPS = ["+", "*", "==", "!=", "&&", "||", "&", "|", "^", "<?", ">?"]
@@ -136,7 +137,12 @@ RTYPES = {  # name -> (typedef text, equivalence class per the statement / langu
     "TySTa": ("typedef TyST TySTa;", "struct:a:int,b:int"),
     "TyA2a": ("typedef TyA2 TyA2a;", "array:2:int"),
     "TyAS1a": ("typedef int TyAS1a[TyS1a];", None),
+    # the same bound / size spelled with a named constant, a literal, an expression (declared before use: see ref_consts)
+    "TyRN": ("typedef int[0,N4] TyRN;", None), "TyR4": ("typedef int[0,4] TyR4;", None), "TyRP": ("typedef int[0,2+2] TyRP;", None),
+    "TyAN": ("typedef int TyAN[N4];", None), "TyA4": ("typedef int TyA4[4];", None), "TyAP": ("typedef int TyAP[2+2];", None),
+    "TyARN": ("typedef int[0,N4] TyARN[2];", None), "TyAR4": ("typedef int[0,4] TyAR4[2];", None),
 }
+REF_CONSTS = "const int N4 = 4;\n"
 
 
 def ref_decl():
@@ -148,7 +154,7 @@ def ref_decl():
 
 
 def ref_decl_noconstvars():
-    d = "".join(v[0] + "\n" for v in RTYPES.values())
+    d = REF_CONSTS + "".join(v[0] + "\n" for v in RTYPES.values())
     for k in RTYPES:
         d += "%s v_%s; void f_%s(%s &p) {} void g_%s(const %s &p) {}\n" % (k, k, k, k, k, k)
     return d
@@ -193,7 +199,7 @@ def run_refparams(rep):
     docs, meta = [], []
     for a in names:
         for b in names:
-            tdecl = "".join(v[0] + "\n" for v in RTYPES.values()) + "%s v_a;" % a
+            tdecl = REF_CONSTS + "".join(v[0] + "\n" for v in RTYPES.values()) + "%s v_a;" % a
             t = xmlgen.template("T", params="%s &p" % b, locations=[xmlgen.location("id0", "L0")], init="id0")
             docs.append(xmlgen.nta(tdecl, [t], "P = T(v_a); system P;"))
             meta.append((a, b))
